@@ -64,7 +64,7 @@ type c13Params struct {
 func (c13) ID() string    { return "C13" }
 func (c13) Level() string { return "exploration" }
 func (c13) Rule() string {
-	return "each case draws a scenario (established connection / first use racing with the handshake / Close racing with in-flight calls / Close against Writes blocked in a full transport / a write deadline set by another task expiring while Writes are blocked, then cleared / Close racing with a handshake in flight whose peer is silent / pa adapter first use; on dtlcp also one reader using Read with a buffer smaller than a datagram next to ReadFrom readers, and the server end while copies of the client's last flight make it re-send its own from inside Read), stack (tlcp, dtlcp with ReadFrom+WriteTo), suite, 1-3 writer tasks, 1-3 reader tasks, 0-2 auxiliary tasks (ConnectionState, deadline setters, extra Handshake callers) on ONE connection, and a seeded schedule: the vs kernel decides every pre-emption at every mutex operation, atomic operation and transport call of the library. Built with -race; the kernel's hand-over is invisible to the race detector, so an unsynchronised access pair is reported whatever the distance between the two accesses. Oracle: no race report, no deadlock, every Handshake caller sees the same result, every successful Write appears contiguously and exactly once in the peer's stream, frames delivered to concurrent readers are exactly the frames sent (no loss, no duplicate), after Close every pending call returns. Also: Close on a full transport with no Write in flight (the last one gave up at its deadline) and a Read pending (close-full); the shared connection may be the server end; in first-use one caller makes its first call 1-5 ms late, the instants at which handshake flights arrive. distinct = distinct schedule traces; non-trivial = at least two tasks were in calls on the connection at the same time (kernel counts lock contention / interleaved steps)"
+	return "each case draws a scenario (established connection / first use racing with the handshake / Close racing with in-flight calls / Close against Writes blocked in a full transport / a write deadline set by another task expiring while Writes are blocked, then cleared / Close racing with a handshake in flight whose peer is silent / pa adapter first use; on dtlcp also one reader using Read with a buffer smaller than a datagram next to ReadFrom readers, and the server end while copies of the client's last flight make it re-send its own from inside Read), stack (tlcp, dtlcp with ReadFrom+WriteTo), suite, 1-3 writer tasks, 1-3 reader tasks, 0-2 auxiliary tasks (ConnectionState, deadline setters, extra Handshake callers) on ONE connection, and a seeded schedule: the vs kernel decides every pre-emption at every mutex operation, atomic operation and transport call of the library. Built with -race; the kernel's hand-over is invisible to the race detector, so an unsynchronised access pair is reported whatever the distance between the two accesses. Oracle: no race report, no deadlock, every Handshake caller sees the same result, every successful Write appears contiguously and exactly once in the peer's stream, frames delivered to concurrent readers are exactly the frames sent (no loss, no duplicate), after Close every pending call returns. Also: Close on a full transport with no Write in flight (the last one gave up at its deadline) and a Read pending (close-full); the shared connection may be the server end; in first-use one caller makes its first call 1-5 ms late, the instants at which handshake flights arrive. On established stream connections, in half of the cases, one more task keeps setting the read deadline into the past and clearing it while the readers work (a reader told 'timeout' reads again): no byte may be lost. distinct = distinct schedule traces; non-trivial = at least two tasks were in calls on the connection at the same time (kernel counts lock contention / interleaved steps)"
 }
 func (c13) Components() (real, stub []string) {
 	return []string{"tlcp.Conn, dtlcp.Conn, pa.ProtocolSwitchServerConn (instrumented): all locking and atomics real (sync.Mutex via TryLock loop)", "Go race detector"},
